@@ -16,13 +16,23 @@ def run(pid, tier, seed):
     os.makedirs(tdir, exist_ok=True)
     tp = os.path.join(tdir, "%s-%s-%d.ndjson" % (pid, tier, seed))
     vlib.record_trace(exe, ["record", "--seed", seed, "--runs", 6 if q else 30, "--len", 250 if q else 600], tp)
+    # few substitutions over many parameters: every general substitution gets dozens of bindings, each rebound several times
+    tpw = os.path.join(tdir, "%s-%s-%d-wide.ndjson" % (pid, tier, seed))
+    vlib.record_trace(exe, ["record", "--seed", seed + 5, "--runs", 3 if q else 12, "--len", 400 if q else 900, "--params", 40,
+                            "--values", 6, "--maxsubst", 3], tpw)
     with ThreadPoolExecutor(max_workers=3) as ex:
         gf = ex.submit(vlib.generate_and_replay, "IprSubstMC", pid, consts, exe, ("replay", str(np_), str(nv)),
                        ["Inv"], ["FrameMC"], 8, 2400, "8g")
         tf = ex.submit(vlib.validate_trace_resync, "IprSubstTrace", tp, ["Inv"], pid, 4,
                        lambda ev: ev.get("op") == "reset", {"NParam": 6, "NValue": 4})
+        wf = ex.submit(vlib.validate_trace_resync, "IprSubstTrace", tpw, ["Inv"], pid + "-wide", 4,
+                       lambda ev: ev.get("op") == "reset", {"NParam": 40, "NValue": 6})
         r = gf.result()
         tr = tf.result()
+        w = wf.result()
+        for k in ("states", "transitions", "executions", "lines"):
+            tr[k] += w[k]
+        tr["rejections"] += w["rejections"]
     violations, samples = [], []
     s, t = r["summary"], r["tlc"]
     if s["behaviours"] == 0:
@@ -58,7 +68,8 @@ def run(pid, tier, seed):
         "rule": "binding A: all sequences of make_elementary/make_general/bind/apply of length %d over %d parameters (from two "
                 "parameter lists), %d other values and at most 2 substitutions, replayed with every result compared. A class is "
                 "operation x flavour x (queried parameter in/out of the domain) x (new binding/rebinding). binding B: random "
-                "histories over 6 parameters, 4 values, unbounded number of substitutions." % (depth, np_, nv),
+                "histories over 6 parameters, 4 values, unbounded number of substitutions; and over 40 parameters, 6 values and "
+                "three substitutions (dozens of bindings per substitution, each parameter rebound several times)." % (depth, np_, nv),
         "samples": samples, "exhaustive": True, "exhaustive_scope": "all behaviours up to the stated depth",
         "recorded_events": tr["lines"],
     }
